@@ -46,6 +46,39 @@ def _clear_dask_caches():
         raise RuntimeError(f"cannot clear dask-expr caches: {e}") from e
 
 
+def _sp_module_state():
+    """Process-global mutable state of the code under test: module-level dict / list / set
+    objects and functools caches of every loaded spatialpandas module.  One run is one fresh
+    system: whatever a run leaves there (a cache a change introduces, say) is put back to its
+    pre-run content afterwards, so that a later run in the same worker process does not
+    depend on the runs before it - the same seed gives the same execution wherever it runs."""
+    import sys
+    snap = []
+    for name, mod in sorted(sys.modules.items()):
+        if not (name == "spatialpandas" or name.startswith("spatialpandas.")) or mod is None:
+            continue
+        if ".tests" in name:
+            continue
+        for attr, val in sorted(vars(mod).items()):
+            if type(val) in (dict, list, set) and not attr.startswith("__"):
+                snap.append((val, type(val)(val)))
+            elif hasattr(val, "cache_clear") and callable(getattr(val, "cache_clear", None)) \
+                    and getattr(val, "__module__", "") == name:
+                snap.append((val, None))
+    return snap
+
+
+def _restore_sp_module_state(snap):
+    for obj, saved in snap:
+        if saved is None:
+            obj.cache_clear()
+        elif isinstance(obj, list):
+            obj[:] = saved
+        else:
+            obj.clear()
+            obj.update(saved)
+
+
 @contextlib.contextmanager
 def installed(sim, store=None, scheduler=True):
     """Patch clock, sleep, uuid4, the Dask scheduler and the simfs:// registry."""
@@ -89,10 +122,12 @@ def installed(sim, store=None, scheduler=True):
     prev_store = simfs.SimFS.CURRENT
     simfs.SimFS.CURRENT = store
     cfg = dask.config.set(scheduler=sim.dask_get) if scheduler else contextlib.nullcontext()
+    sp_state = _sp_module_state()
     try:
         with cfg:
             yield
     finally:
+        _restore_sp_module_state(sp_state)
         retrying.time = real_time_mod
         retrying.Retrying.should_reject = real_should_reject
         _uuid.uuid4 = real_uuid4
